@@ -685,8 +685,9 @@ func runSWHistory(c *Ctx, i int) (*swHist, error) {
 			}
 		}
 	}
-	for round, rounds := 0, 1+c.Rng.Intn(3); round < rounds; round++ {
-		incr := c.Rng.Intn(3) != 0
+	chain := c.Rng.Intn(3) == 0 // incremental runs one after the other: L3, L2, L1, L0, then Flatten
+	for round, rounds := 0, 1+c.Rng.Intn(3)+map[bool]int{true: 3, false: 0}[chain]; round < rounds; round++ {
+		incr := c.Rng.Intn(3) != 0 || (chain && round > 0)
 		if incr && c.Rng.Intn(5) != 0 {
 			if err := h.flush(); err != nil { // incremental mode needs empty memtables
 				return h, err
@@ -738,6 +739,9 @@ func runSWHistory(c *Ctx, i int) (*swHist, error) {
 		}
 		if managed && mts <= maxv {
 			mts = maxv + 1
+		}
+		if chain && c.Rng.Intn(4) != 0 {
+			continue
 		}
 		write()
 		if !managed {
